@@ -142,6 +142,8 @@ def wellformed_text(rng, t):
             return m.name       # the natural text form of a member: its name
         return ''.join(c.lower() if rng.random() < 0.5 else c for c in m.name)
     items = [rng.choice(['a', 'b', 'xy', 'k1', '7', 'A b']) for _ in range(rng.randint(1, 4))]
+    if t in ('TList', 'TTuple', 'TDict') and rng.random() < 0.15:
+        return rng.choice(['', '', ' ', '\t '])       # the empty collection
     if t in ('TList', 'TTuple'):
         return ','.join(pad(i) if rng.random() < 0.3 else i for i in items)
     if t == 'TDict':
@@ -389,12 +391,15 @@ def ref_parse(t, s):
                 return Color[s]            # a member given by its name ...
             except KeyError:
                 return Color[s.upper()]    # ... or, for upper-case members, in any letter case
+    # the natural text form of an empty list / tuple / mapping is the empty text
     if t == 'TList':
-        return [x.strip() for x in s.split(',')]
+        return [x.strip() for x in s.split(',')] if s.strip() else []
     if t == 'TTuple':
-        return tuple(x.strip() for x in s.split(','))
+        return tuple(x.strip() for x in s.split(',')) if s.strip() else ()
     if t == 'TDict':
         d = {}
+        if not s.strip():
+            return d
         for p in s.split(','):
             k, v = [x.strip() for x in p.strip().split('=')]
             d[k] = v
